@@ -993,6 +993,20 @@ class InterpCore:
                     return r
         if cls.entity is not None and name in {f["name"] for f in cls.entity["fields"]}:
             self.throw("AttributeError", f"type object {cls.name!r} has no attribute {name!r} (slots dataclass)", node)
+        if name == "__hash__":
+            opts = cls.flags.get("dataclass")
+            if cls.entity is not None:
+                return LibFn.get("object.__hash__")  # generated entities: dataclass(frozen=True, ...) (C15 checks the decorator)
+            if opts is not None and opts.get("eq", True) and not opts.get("frozen", False) and not opts.get("unsafe_hash", False):
+                return None  # eq without frozen: __hash__ is set to None
+            if opts is not None or not any(isinstance(c, ClassV) and "__eq__" in c.ns for c in cls.mro):
+                return LibFn.get("object.__hash__")
+        if name in ("__eq__", "__ne__", "__lt__", "__le__", "__gt__", "__ge__", "__init__", "__new__", "__repr__", "__str__", "__format__",
+                    "__dict__", "__doc__", "__mro__", "__bases__", "__setattr__", "__delattr__", "__getattribute__", "__reduce__",
+                    "__reduce_ex__", "__sizeof__", "__subclasshook__", "__dir__", "__getstate__", "__weakref__", "__subclasses__",
+                    "__call__", "__basicsize__", "__flags__", "__text_signature__", "__type_params__"):
+            # special attributes every class inherits from object / gets from decorators: not modelled one by one
+            self.limit(f"special attribute {name} of class {cls.name} is not modelled", node)
         self.throw("AttributeError", f"type object {cls.name!r} has no attribute {name!r}", node)
 
     def setattr_(self, o, name, v, run, node):
